@@ -41,6 +41,7 @@ def cfg_text(c, emit=True, invs=INVS, prop=True):
              "  Kinds = %s" % sset(c.get("kinds", ALLK)),
              "  NIp = %d" % c.get("nip", 1), "  NDom = %d" % c.get("ndom", 1), "  NMac = %d" % c.get("nmac", 1),
              "  NKw = %d" % c.get("nkw", 1), "  NPat = %d" % c.get("npat", 1),
+             "  NIp6 = %d" % c.get("nip6", 1), "  NAk = %d" % c.get("nak", 1), "  V6Set = %s" % bset(c.get("v6", [False])),
              "  DelSet = %s" % sset(c.get("dels", ["space"])),
              "  MaxTok = %d" % c.get("tok", 1), "  MaxLines = %d" % c.get("lines", 1),
              "  MaxSpecs = %d" % c.get("specs", 1), "  TotLines = %d" % c.get("tot", c.get("lines", 1)),
@@ -99,6 +100,16 @@ CONFIGS = {
                   kws=[[]], fam=["plain", "collide", "suffix", "prefix"]),
     "hist2x": dict(kinds=["ip", "fqdn", "dom", "kw", "text"], nip=1, ndom=2, nmac=1, tok=2, lines=2, specs=2, tot=2,
                    kws=[[1]], noobf=[[], ["ip", "hostname"]], fam=["plain"], sysdom=[True, False]),
+    # IPv6 (C09 speaks of "IP address"): 3-line histories incl. the collision family (ip6 1 = substitute of ip6 2)
+    "hist3v6": dict(kinds=["ip6"], nip6=2, v6=[True], tok=2, lines=3, specs=3, tot=3, kws=[[]], fam=["plain", "collide"]),
+    "hist2v6": dict(kinds=["ip6", "ip", "mac"], nip6=2, v6=[True, False], tok=2, lines=2, specs=2, tot=2, kws=[[]],
+                    noobf=[[], ["ipv6"]], fam=["plain"]),
+    # IPv6 after ] ^ ` (the pattern's look-behind has a character RANGE there): recorded finding
+    "hist2v6lb": dict(kinds=["ip6"], nip6=2, v6=[True], dels=["space", "punct"], tok=1, lines=2, specs=2, tot=2, kws=[[]],
+                      fam=["v6lb"]),
+    # a keyword inside a host name of the domain, two specs of which one exempts keywords
+    "hist2kw": dict(kinds=["dom", "kw", "fqdn"], ndom=2, tok=2, lines=2, specs=2, tot=2, kws=[[1]],
+                    noobf=[[], ["keyword"]], fam=["kwdom", "kwhost"]),
     # fixed-width mode: the same address twice on one line / on two lines
     "histw": dict(kinds=["ip"], nip=2, tok=2, lines=2, specs=2, tot=2, kws=[[]], width=[True], fam=["plain", "prefix"]),
     "hist3ip": dict(kinds=["ip"], nip=3, tok=2, lines=3, specs=3, tot=3, kws=[[]], fam=["plain", "collide", "prefix"]),
@@ -123,6 +134,9 @@ CONFIGS = {
                      noobf=[["hostname", "ip", "mac", "password"]], runs=2),
     # filterable spec: allow list {key: max_match 1|2}, budgets used up by the content
     "runsallow": dict(kinds=["text", "akey", "ip", "pat"], tok=1, lines=3, blank=True, pats=[[1]], allow=[1, 2], runs=2),
+    # allow list of two keys with budgets 1-2, lines with one or both keys
+    "runsallow2": dict(kinds=["text", "akey"], nak=2, tok=2, lines=3, kws=[[]], allow=[1, 2], runs=2),
+    "runsallow3": dict(kinds=["text", "akey"], nak=3, tok=3, lines=2, kws=[[]], allow=[1, 2], runs=2),
     # every order, two runs: OneOrder / Deterministic on the model
     "ordruns": dict(kinds=["kw", "fqdn", "pw", "pat"], tok=1, lines=1, blank=True, pats=[[1]],
                     fam=["plain", "kwdom", "pwip"], runs=2, allorders=True),
@@ -136,11 +150,11 @@ PLAN = {
                            paths=["content", "specprovider", "provider"]),
                 thorough=dict(emit=["tok1", "switch1", "pair", "pats3", "pairx", "pairc", "pairw", "triple", "triplep"], model=["orders"],
                               cap=45000, nconc=6, paths=["content", "content", "file", "provider", "fileprovider", "specprovider"])),
-    "C09": dict(quick=dict(emit=["hist2", "hist2x", "histw"], model=[], cap=8000, nconc=2, paths=["content"], long=80),
-                thorough=dict(emit=["hist2", "hist2x", "histw", "hist3ip", "hist3host", "hist3mac"], model=[], cap=50000, long=600,
+    "C09": dict(quick=dict(emit=["hist2", "hist2x", "histw", "hist3v6", "hist2v6", "hist2v6lb", "hist2kw"], model=[], cap=8000, nconc=2, paths=["content"], long=80),
+                thorough=dict(emit=["hist2", "hist2x", "histw", "hist3v6", "hist2v6", "hist2v6lb", "hist2kw", "hist3ip", "hist3host", "hist3mac"], model=[], cap=50000, long=600,
                               nconc=3, paths=["content", "content", "provider", "file"])),
-    "C10": dict(quick=dict(emit=["runs3", "runs2sp", "runsnone", "runsallow", "runshosts"], model=["ordruns"], cap=800, seeds=16),
-                thorough=dict(emit=["runs3", "runs2sp", "runsnone", "runsallow", "runshosts", "runs2x2", "runs4"], model=["ordruns"], cap=5000, seeds=64)),
+    "C10": dict(quick=dict(emit=["runs3", "runs2sp", "runsnone", "runsallow", "runsallow2", "runshosts"], model=["ordruns"], cap=800, seeds=16),
+                thorough=dict(emit=["runs3", "runs2sp", "runsnone", "runsallow", "runsallow2", "runsallow3", "runshosts", "runs2x2", "runs4"], model=["ordruns"], cap=5000, seeds=64)),
 }
 
 ASSUMPTIONS = [
@@ -257,7 +271,7 @@ def long_cases(rng, n):
     out = []
     for i in range(n):
         N = rng.randint(12, 20)
-        kinds = rng.choice([["ip"], ["ip"], ["dom"], ["mac"], ["kw"], ["ip", "dom", "mac", "kw"]])
+        kinds = rng.choice([["ip"], ["ip"], ["dom"], ["mac"], ["kw"], ["ip6"], ["ip", "dom", "mac", "kw", "ip6"]])
         seq = []
         for k in kinds:
             ids = list(range(1, N + 1))
@@ -283,7 +297,7 @@ def long_cases(rng, n):
             m = rng.randint(3, 8)
             content.append(dict(sp=dict(nored=False, noobf=[], width=False, allow=0), lines=lines[:m]))
             lines = lines[m:]
-        cf = dict(obf=True, host=True, mac=True, kws=list(range(1, N + 1)) if "kw" in kinds else [], pats=[],
+        cf = dict(obf=True, host=True, mac=True, v6="ip6" in kinds, kws=list(range(1, N + 1)) if "kw" in kinds else [], pats=[],
                   regex=False, sysdom=True, fam="plain")
         out.append(dict(id="long#%d" % i, cf=cf, ord=[], content=content))
     return out
